@@ -40,7 +40,11 @@ def gen_val(rng, cls="int840"):
     elif cls == "dyadic":                                # 0.5, 1.5, 0.125, 3.75, ... incl. values in (0,1)
         v = rng.choice([1, 1, 3, 5, 7, 13, 31, 63]) / float(2 ** rng.randint(1, 6))
     elif cls == "large":
-        v = float(rng.choice([2 ** 40, 3 * 2 ** 38, 123456789 * 2 ** 10, 2 ** 45 + 2 ** 20]))
+        v = float(rng.choice([2 ** 40, 3 * 2 ** 38, 123456789 * 2 ** 10, 2 ** 45 + 2 ** 20, 2 ** 24 + 1, 2 ** 31 + 1]))
+    elif cls == "arbitrary":
+        # any finite double: only for operations that CARRY values (partition, singleton groups)
+        v = rng.choice([0.1, 0.3, 1.0 / 3.0, 5e-324, 2.2250738585072014e-308, 1e-7, 1e300, 16777217.0,
+                        2.0 ** 53 + 2, 123456789.123, 0.7, 1e-320])
     else:
         raise ValueError(cls)
     if rng.random() < 0.15:
@@ -60,7 +64,7 @@ def gen_grid(rng, n, m, cls="int840"):
     return g
 
 
-PATH_BINS = ["K1", "K2", "K3", "ko:x", "é", "b b"]
+PATH_BINS = ["K1", "K2", "K3", "ko:x", "é", "b b", "caf\u00e9", "cafe\u0301", "50%", "\"q", "ls\u2028x"]
 
 
 def gen_paths(rng):
@@ -99,6 +103,20 @@ def awkward_ids(rng, ids):
     """sometimes: an ID ending in a blank / newline, an ID that extends another one, a very long ID
     (IDs live in fixed-width arrays; collapsed_ids and parts must carry them unchanged)"""
     ids = list(ids)
+    c = rng.random()
+    if c < 0.08 and len(ids) >= 2:
+        # NFC and NFD spellings of one text are two DISTINCT IDs of the same axis
+        a, b = core.twin_ids(rng, 1)
+        i, j = rng.sample(range(len(ids)), 2)
+        if a not in ids and b not in ids:
+            ids[i], ids[j] = a, b
+        return ids
+    if c < 0.16:
+        k = rng.randrange(len(ids))
+        new = ids[k][0] + rng.choice(core.NASTY_TEXTS)
+        if new not in ids:
+            ids[k] = new
+        return ids
     if rng.random() < 0.2:
         k = rng.randrange(len(ids))
         c = rng.choice(["blank", "newline", "extend", "long"])
@@ -114,7 +132,11 @@ def gen_spec(rng, max_n, max_m):
     m = rng.randint(1, max_m)
     obs = awkward_ids(rng, core.gen_ids(rng, n, "O"))
     samp = awkward_ids(rng, core.gen_ids(rng, m, "S"))
-    cls = rng.choice(DIVISIBLE + ADD_ONLY)
+    if rng.random() < 0.1:
+        x = rng.choice(obs)                   # the same name on both axes
+        if x not in samp:
+            samp[rng.randrange(m)] = x
+    cls = rng.choice(DIVISIBLE + ADD_ONLY + ["arbitrary"])
     return {"obs": obs, "samp": samp, "rows": gen_grid(rng, n, m, cls), "vclass": cls,
             "omd": gen_axis_md(rng, obs, rng.choice(["full", "full", "partial", "none", "sparse"])),
             "smd": gen_axis_md(rng, samp, rng.choice(["full", "full", "partial", "none", "sparse"])),
@@ -197,6 +219,9 @@ def labeler(name, arg, ids):
     if name == "falsy_mix":
         # falsy labels are labels: only None is dropped by ignore_none
         return lambda i, m: [0, "", [], None, "a", ()][(pos[i] + arg) % 6]
+    if name == "nasty_label":
+        # labels that become IDs: '%' forms, quotes, U+2028.., NFC/NFD twins as distinct labels
+        return lambda i, m: arg[pos[i] % len(arg)]
     if name == "long_label":
         # the label becomes an ID longer than every existing one, non-ASCII, ending in a blank
         return lambda i, m: "L" + "x" * 50 + "é" + str(pos[i] % arg) + " "
@@ -204,7 +229,7 @@ def labeler(name, arg, ids):
 
 
 def gen_labeler(rng, ids, md, for_collapse):
-    names = ["last_char", "const", "identity", "pos_mod", "pos_mod", "none_some", "long_label"]
+    names = ["last_char", "const", "identity", "pos_mod", "pos_mod", "none_some", "long_label", "nasty_label"]
     if not for_collapse:
         names += ["id_len", "list_of_id", "none_all", "mixed_list_tuple", "falsy_mix", "falsy_mix"]
     if md is not None:
@@ -224,6 +249,8 @@ def gen_labeler(rng, ids, md, for_collapse):
         name, arg = n, rng.choice([2, 2, 3])
     elif n == "falsy_mix":
         name, arg = n, rng.randrange(6)
+    elif n == "nasty_label":
+        name, arg = n, rng.sample(core.NASTY_TEXTS + core.twin_ids(rng, 2), rng.choice([2, 3]))
     elif n == "none_some":
         k = len(ids)
         name, arg = n, sorted(rng.sample(range(k), rng.randint(0, k)))
@@ -261,6 +288,8 @@ def gen_dict_form(rng, ids):
     if rng.random() < 0.06:
         return {}, {"kind": rng.choice(["id2grp", "grp2ids"]), "map": []}
     groups = ["ga", "gb", "gc"]
+    if rng.random() < 0.3:
+        groups = rng.sample(core.NASTY_TEXTS + core.twin_ids(rng, 2), 3)
     pool = list(ids) + ["unknown-id"] + core.tricky_unknown_ids(ids)[:rng.randint(0, 3)]
     if rng.random() < 0.5:
         chosen = [i for i in pool if rng.random() < 0.7] or [pool[0]]
@@ -275,6 +304,124 @@ def gen_dict_form(rng, ids):
         rng.shuffle(members)
         d[g] = tuple(members) if rng.random() < 0.3 else members
     return d, {"kind": "grp2ids", "map": [[k, list(v)] for k, v in d.items()]}
+
+
+# ----------------------------------------------------------------------------- the same argument object, used before
+class LutLabeler:
+    """a labelling function object with mutable state: label = lut[id]"""
+
+    def __init__(self, lut):
+        self.lut = lut
+
+    def __call__(self, i, m):
+        return self.lut[i]
+
+
+def vary_mapping(rng, d, kind, ids):
+    """another mapping of the same form (an ID moved, a group added / dropped, a member list reversed)"""
+    v = {k: (list(x) if isinstance(x, (list, tuple)) else x) for k, x in d.items()}
+    pool = list(ids) or ["x"]
+    for _ in range(rng.randint(1, 3)):
+        c = rng.random()
+        if kind == "grp2ids":
+            if c < 0.4 and v:
+                src = rng.choice(list(v))
+                dst = rng.choice(list(v) + ["gz"])
+                if v[src]:
+                    x = v[src].pop(rng.randrange(len(v[src])))
+                    v.setdefault(dst, []).append(x)
+                else:
+                    v.setdefault(dst, []).append(rng.choice(pool))
+            elif c < 0.7:
+                v["g-new-%d" % len(v)] = [i for i in pool if rng.random() < 0.5] or [pool[0]]
+            elif c < 0.85 and len(v) > 1:
+                del v[rng.choice(list(v))]
+            elif v:
+                k = rng.choice(list(v))
+                v[k] = v[k][::-1] + [rng.choice(pool)]
+        else:
+            if c < 0.5 and v:
+                v[rng.choice(list(v))] = rng.choice(["ga", "gb", "gz"])
+            elif c < 0.8:
+                v[rng.choice(pool)] = rng.choice(["gz", "ga"])
+            elif len(v) > 1:
+                del v[rng.choice(list(v))]
+    if not v:
+        v = {"gz": [pool[0]]} if kind == "grp2ids" else {pool[0]: "gz"}
+    return v
+
+
+def set_in_place(d, target):
+    """make the dict object `d` hold `target` (same keys in the same order), keeping `d` and, where possible,
+    its inner list objects alive"""
+    items = []
+    for k, v in target.items():
+        old = d.get(k)
+        if isinstance(old, list) and isinstance(v, list):
+            old[:] = v
+            v = old
+        items.append((k, v))
+    d.clear()
+    d.update(items)
+
+
+def warm_calls(rng, t, axis, arg, otm=False):
+    """use the argument object on this very table (either axis, partition consumed fully or up to the first
+    part, collapse) -- whatever it returns or raises is not judged here"""
+    other = "observation" if axis == "sample" else "sample"
+    for _ in range(rng.randint(1, 2)):
+        ax = axis if rng.random() < 0.8 else other
+        c = rng.random()
+        try:
+            if otm:
+                t.collapse(arg, norm=False, one_to_many=True, one_to_many_mode=rng.choice(["add", "divide"]), axis=ax)
+            elif c < 0.4:
+                list(t.partition(arg, axis=ax))
+            elif c < 0.6:
+                next(iter(t.partition(arg, axis=ax, remove_empty=rng.random() < 0.5)), None)
+            else:
+                t.collapse(arg, norm=False, axis=ax, min_group_size=rng.choice([1, 2]))
+        except Exception:
+            pass
+
+
+def reuse_dict(ctx, rng, t, axis, d, kind, ids):
+    """the SAME dict object was used on this table with OTHER content, then edited in place to its present content"""
+    target = {k: (list(v) if isinstance(v, list) else v) for k, v in d.items()}
+    for _ in range(rng.randint(1, 2)):
+        set_in_place(d, vary_mapping(rng, target, kind, ids))
+        warm_calls(rng, t, axis, d)
+    set_in_place(d, target)
+    ctx.count("reuse:same_dict_object_edited_in_place=%s" % kind)
+
+
+def reuse_lut(ctx, rng, t, axis, ids, labels):
+    """a labelling function OBJECT whose state changed between two uses on the same table"""
+    f = LutLabeler({})
+    for _ in range(rng.randint(1, 2)):
+        k = rng.randrange(1, max(2, len(labels)))
+        f.lut.clear()
+        f.lut.update(zip(ids, labels[k:] + labels[:k]))
+        warm_calls(rng, t, axis, f)
+    f.lut.clear()
+    f.lut.update(zip(ids, labels))
+    ctx.count("reuse:same_function_object_with_changed_state")
+    return f
+
+
+def reentrant(f, t, axis, rng):
+    """a labeller that, while being asked, uses the same table again (partition / collapse on either axis)"""
+    state = {"n": 0}
+    axes = [axis, "observation" if axis == "sample" else "sample"]
+
+    def g(i, m):
+        state["n"] += 1
+        if state["n"] in (1, 3):
+            for ax in axes:
+                list(t.partition(lambda a, b: a[-1], axis=ax))
+                t.collapse(lambda a, b: "z", axis=ax, norm=False)
+        return f(i, m)
+    return g
 
 
 # ----------------------------------------------------------------------------- one-to-many generators
@@ -434,6 +581,11 @@ def profile(name):
     if name is None:
         yield
         return
+    if name == "warnings-error":
+        with warnings.catch_warnings():
+            warnings.simplefilter("error")             # a caller's warnings filter must not change the outcome
+            yield
+        return
     with warnings.catch_warnings():
         warnings.simplefilter("ignore")
         with biom.err.errstate(empty=name):
@@ -488,7 +640,7 @@ def receiver_reading(t):
         return {"by-id-lookup-raised": type(e).__name__}
 
 
-INPLACE = ["transform", "update_ids", "md_mutation"]
+INPLACE = ["transform", "update_ids", "update_ids_swap", "md_mutation"]
 
 
 def inplace_change(rng, x, axis):
@@ -504,6 +656,16 @@ def inplace_change(rng, x, axis):
         if ids:
             k = rng.randrange(len(ids))
             x.update_ids({ids[k]: str(ids[k]) + "_renamed_" + "y" * 30}, axis=axis, strict=False, inplace=True)
+    elif c == "update_ids_swap":
+        ids = [i for i in x.ids(axis=axis)]
+        if len(ids) >= 2 and all(isinstance(i, str) for i in ids):
+            rot = ids[1:] + ids[:1]                    # a rotation: every new ID is some other vector's old ID
+            try:
+                x.update_ids(dict(zip(ids, rot)), axis=axis, strict=True, inplace=True)
+            except Exception:
+                c = "update_ids_swap-refused"
+        else:
+            c = "update_ids_swap-skipped"
     else:
         md = x.metadata(axis=axis)
         if md is not None and len(md):
@@ -520,7 +682,7 @@ def check(ctx, t, axis, op, pyf, tags, meta, nontrivial, rng=None, stress=True):
             ctx.count("stress:poked_layout")
         c = rng.random()
         if c < 0.10:
-            prof = rng.choice(["warn", "call"])                            # (viii) non-default profile
+            prof = rng.choice(["warn", "call", "warnings-error"])           # (viii) non-default profile / filter
         elif c < 0.16:
             prof = "raise"
         alias = rng.random() < 0.12                                        # (vii)
@@ -612,6 +774,8 @@ def do_partition(ctx, rng, t, axis, tags, meta, wide=False):
     if rng.random() < 0.25:
         pyf, fj = gen_dict_form(rng, ids)
         lab_kind = fj["kind"]
+        if rng.random() < 0.5:
+            reuse_dict(ctx, rng, t, axis, pyf, fj["kind"], ids)
     else:
         name, arg = gen_labeler(rng, ids, md, False)
         while wide and name in ("identity", "list_of_id", "mixed_list_tuple", "id_len"):
@@ -621,6 +785,12 @@ def do_partition(ctx, rng, t, axis, tags, meta, wide=False):
         fj = {"kind": "results", "labels": [label_json(v) for v in labels]}
         pyf = f
         lab_kind = name
+        c = rng.random()
+        if c < 0.15:
+            pyf = reuse_lut(ctx, rng, t, axis, ids, labels)
+        elif c < 0.22:
+            pyf = reentrant(f, t, axis, rng)
+            ctx.count("reuse:reentrant_labeller")
     op = {"op": "partition", "f": fj, "remove_empty": re_, "ignore_none": ign}
     r, out = check(ctx, t, axis, op, pyf, tags, dict(meta, labeler=lab_kind), nontrivial=len(ids) >= 2, rng=rng)
     ctx.count("labeler=%s" % lab_kind)
@@ -640,16 +810,21 @@ def do_partition(ctx, rng, t, axis, tags, meta, wide=False):
             ctx.count("partition:part_of_only_metadata_free_ids_has_no_metadata")
 
 
-def do_collapse(ctx, rng, t, axis, tags, meta, wide=False):
+def do_collapse(ctx, rng, t, axis, tags, meta, wide=False, mgs_override=None):
     ids = [str(i) for i in t.ids(axis=axis)]
     md = axis_md(t, axis)
     div_ok = meta.get("vclass", "int840") in DIVISIBLE
     norm = rng.random() < 0.5 and not wide and div_ok   # wide groups / add-only values: division not exact
-    mgs = rng.choice([1, 1, 1, 2, 2, 3]) if not wide else rng.choice([1, 2, 3, 33, 64, 200])
+    mgs = rng.choice([1, 1, 1, 2, 2, 3]) if not wide else rng.choice(
+        [1, 2, 3, 33, 64, 200, len(ids) // 3 + 1, len(ids) // 2 + 1, len(ids) + 1])
+    if mgs_override is not None:
+        mgs = mgs_override
     icm = rng.random() < 0.75
     if rng.random() < 0.2:
         pyf, fj = gen_dict_form(rng, ids)
         lab_kind = fj["kind"]
+        if rng.random() < 0.5:
+            reuse_dict(ctx, rng, t, axis, pyf, fj["kind"], ids)
     else:
         name, arg = gen_labeler(rng, ids, md, True)
         while wide and name == "identity":
@@ -659,6 +834,12 @@ def do_collapse(ctx, rng, t, axis, tags, meta, wide=False):
         fj = {"kind": "results", "labels": [label_json(v) for v in labels]}
         pyf = f
         lab_kind = name
+        c = rng.random()
+        if c < 0.15:
+            pyf = reuse_lut(ctx, rng, t, axis, ids, labels)
+        elif c < 0.22:
+            pyf = reentrant(f, t, axis, rng)
+            ctx.count("reuse:reentrant_labeller")
     op = {"op": "collapse", "f": fj, "norm": norm, "min_group_size": mgs, "icm": icm}
     if rng.random() < 0.15:
         op["collapse_f"] = "explicit_sum"           # (vi) the optional reducer, spelled out
@@ -690,6 +871,16 @@ def do_otm(ctx, rng, t, axis, tags, meta):
         scripts = gen_scripts(rng, ids)
     level = 1
     pyf = otm_generator(kind, level, scripts)
+    if kind == "scripted" and len(ids) >= 2 and rng.random() < 0.35:
+        # the same generator function / script table was used on this table with other content
+        target = dict(scripts)
+        for _ in range(rng.randint(1, 2)):
+            k = rng.randrange(1, len(ids))
+            rot = ids[k:] + ids[:k]
+            set_in_place(scripts, {i: list(target[j]) for i, j in zip(ids, rot)})
+            warm_calls(rng, t, axis, pyf, otm=True)
+        set_in_place(scripts, target)
+        ctx.count("reuse:same_generator_object_with_changed_state")
     events = otm_events(kind, level, scripts, ids, md)
     op = {"op": "otm", "events": events, "mode": mode, "strict": strict, "icm": icm, "md_key": key}
     m2 = dict(meta, gen=kind, scripts={k: v for k, v in (scripts or {}).items()})
@@ -818,12 +1009,18 @@ def error_paths(ctx):
         ctx.count("error_path:%s" % name)
 
 
-def wide_cases(ctx, rng, n):
-    """(iv) size thresholds: >= 64 IDs on the axis worked on (and on the other one), IDs given in non-axis order"""
-    for k in range(n):
+def wide_cases(ctx, rng, n, n_huge=0):
+    """(iv) size thresholds: >= 64 IDs (a few: > 512) on the axis worked on (and on the other one), IDs given
+    in non-axis order"""
+    for k in range(n + n_huge):
         axis = rng.choice(["sample", "observation"])
         wide_axis = axis if k % 3 else ("observation" if axis == "sample" else "sample")
-        spec = core.wide_spec(rng, axis=wide_axis, md=False)
+        if k >= n:
+            wide_axis = axis
+            spec = core.wide_spec(rng, n_axis=rng.choice([513, 600, 1030]), other=2, axis=wide_axis, md=False)
+            ctx.count("wide:more_than_512_ids")
+        else:
+            spec = core.wide_spec(rng, axis=wide_axis, md=False)
         cls = rng.choice(DIVISIBLE + ADD_ONLY)
         spec["rows"] = [[(gen_val(rng, cls) if v else 0.0) for v in r] for r in spec["rows"]]
         spec["vclass"] = cls
@@ -835,7 +1032,14 @@ def wide_cases(ctx, rng, n):
         tags = ("wide", "route=" + route)
         ctx.count("wide:axis_worked_on_is_wide=%s" % (axis == wide_axis))
         c = k % 3
-        if c == 0:
+        if k >= n:
+            # a table above 512 IDs gets every operation (the threshold twice: around and above the group sizes)
+            do_partition(ctx, rng, t, axis, tags, meta, wide=True)
+            do_collapse(ctx, rng, t, axis, tags, meta, wide=True)
+            do_collapse(ctx, rng, t, axis, tags, meta, wide=True,
+                        mgs_override=len(t.ids(axis=axis)) // 2 + 1)
+            do_otm(ctx, rng, t, axis, tags, meta)
+        elif c == 0:
             do_partition(ctx, rng, t, axis, tags, meta, wide=True)
         elif c == 1:
             do_collapse(ctx, rng, t, axis, tags, meta, wide=True)
@@ -863,6 +1067,8 @@ def one_random(ctx, rng, max_n, max_m):
     ctx.count("history=%s" % hist)
     ctx.count("axis=%s" % axis)
     c = rng.random()
+    if spec["vclass"] == "arbitrary":
+        c = 0.0                                   # arbitrary doubles only where values are carried, not added
     if c < 0.36:
         do_partition(ctx, rng, t, axis, tags, meta)
     elif c < 0.70:
@@ -894,10 +1100,10 @@ def run(ctx):
     error_paths(ctx)
     rng = ctx.rng
     if ctx.quick():
-        n, max_n, max_m, n_wide = 2600, 6, 6, 12
+        n, max_n, max_m, n_wide, n_huge = 2400, 6, 6, 12, 3
     else:
-        n, max_n, max_m, n_wide = 60000, 8, 8, 300
-    wide_cases(ctx, rng, n_wide)
+        n, max_n, max_m, n_wide, n_huge = 55000, 8, 8, 300, 30
+    wide_cases(ctx, rng, n_wide, n_huge)
     for _ in range(n):
         one_random(ctx, rng, max_n, max_m)
 
